@@ -570,6 +570,33 @@ func run(ctx *common.Ctx) error {
 		if resp == nil {
 			return "", nil
 		}
+		// Section.Part(): the section a part path selects is the part the tree has there (and therefore has the size
+		// BODYSTRUCTURE reports for it)
+		if pps := mimegen.PartPositions(tree); len(pps) > 0 {
+			paths := make([][]int, len(pps))
+			for k, pp := range pps {
+				paths[k] = pp.Path
+			}
+			out, err := r.call(request{Op: "msg", Data: msg, Paths: paths})
+			if err != nil {
+				return "", err
+			}
+			res.Evaluations++
+			if out.resp != nil && len(out.resp.PartPos) == len(pps) {
+				for k, pp := range pps {
+					got := out.resp.PartPos[k]
+					if !got.OK || got.H != pp.H || got.B != pp.B || got.E != pp.E {
+						canon := fmt.Sprintf("PART-SELECTS-WRONG-SECTION depth=%d in %s", len(pp.Path), partKind(tree, pp.Path))
+						if !seenStructFail[canon] {
+							seenStructFail[canon] = true
+							fail(canon, fmt.Sprintf("Part(%v) = ok:%v header@%d body@%d end@%d, the tree has header@%d body@%d end@%d; message %s", pp.Path, got.OK, got.H, got.B, got.E, pp.H, pp.B, pp.E, short(msg)),
+								map[string]interface{}{"shape": shape, "tree": tree, "msg": msg, "path": pp.Path})
+						}
+						break
+					}
+				}
+			}
+		}
 		nodes := 0
 		tree.Walk(func(*mimegen.Node) { nodes++ })
 		if nodes >= 2 || (tree.Env != nil && len(tree.Env.To) > 0) {
@@ -648,7 +675,8 @@ func run(ctx *common.Ctx) error {
 	}
 	for i := 0; i < nTrees; i++ {
 		ascii := i%2 == 0
-		g := &mimegen.Gen{Rng: rng, MaxBody: 60, ASCII: ascii, MsgChainLeaf: true, Bare: true, NoClose: true, EmptyFields: true}
+		prefix := rng.Chance(0.35)
+		g := &mimegen.Gen{Rng: rng, MaxBody: 60, ASCII: ascii, MsgChainLeaf: true, Bare: true, NoClose: !prefix, Prefix: prefix, EmptyFields: true}
 		depth := rng.Range(0, 3)
 		if i%25 == 24 {
 			depth = 5
@@ -698,6 +726,32 @@ func run(ctx *common.Ctx) error {
 
 	res.ModelCases = modelCases
 	return common.WriteCases(ctx.Out, "Run.RunC12", "case", lines, defs.String())
+}
+
+// partKind describes what the prefix of a part path runs through (for canonical failure names).
+func partKind(tree *mimegen.Node, path []int) string {
+	n := tree
+	var ks []string
+	for _, idx := range path {
+		for n.IsMsg() && n.Embedded != nil && n.Embedded.IsMulti() {
+			n = n.Embedded
+			ks = append(ks, "message(multipart)")
+		}
+		switch {
+		case n.IsMulti() && idx >= 1 && idx <= len(n.Children):
+			n = n.Children[idx-1]
+			ks = append(ks, "multipart")
+		case n.IsMsg() && n.Embedded != nil:
+			n = n.Embedded
+			ks = append(ks, "message")
+		default:
+			ks = append(ks, "leaf")
+		}
+	}
+	if len(ks) > 3 {
+		ks = ks[len(ks)-3:]
+	}
+	return strings.Join(ks, ">")
 }
 
 // headerOf: the header part as rfc822.Split defines it (lines up to and including the first blank line).
